@@ -313,6 +313,8 @@ pub fn case_for(seed: u64, tier: Tier, run: u64) -> Case {
 pub fn scripted_cases() -> Vec<Case> {
     let mut v = vec![];
     for curve in CURVES {
+        // party indices beyond one byte / two bytes of the chain label
+        v.push(Case { curve, c0: 2, parties: 259, ops: vec![GOp::Increase(3), GOp::PersistReload(true)], multi: false });
         // every (n, m) view incl. n = 0 on small stores
         for (c0, parties) in [(0usize, 1usize), (0, 2), (0, 3), (1, 2), (3, 3), (5, 4)] {
             v.push(Case { curve, c0, parties, ops: vec![GOp::Views, GOp::PersistReload(true), GOp::Views], multi: false });
